@@ -65,6 +65,30 @@ def sc_cond_dist_branches():
         return {"confirmed": True, "scenario": "Cond(nrm, lap).update / regenerate", "observed": "raised %s: %s" % (type(e).__name__, str(e)[:200]), "required": "defined"}
     return {"confirmed": False}
 
+def sc_cond_mixed_dtypes():
+    """branches whose return values have different dtypes (an integer count vs a real level): the Cond returns the
+    taken branch's VALUE, in simulate, assess and the trace"""
+    cnt = distribution(lambda r: jnp.asarray(3, dtype=jnp.int32), lambda x, r: -0.3 * jnp.abs(x - r), name="cnt")
+    @gen
+    def count_branch(r):
+        return cnt(r) @ "y"
+    @gen
+    def level_branch(r):
+        return nrm(r, 0.7) @ "y"
+    for first, second, flag in [(count_branch, level_branch, False), (level_branch, count_branch, True)]:
+        cond = Cond(first, second)
+        try:
+            tr = cond.simulate(jnp.array(flag), 2.5)
+            y = tr.get_choices()["y"]
+            lp, r = cond.assess({"y": jnp.asarray(2.6, dtype=jnp.float32)}, jnp.array(flag), 2.5)
+            if not close(tr.get_retval(), y):
+                return {"confirmed": True, "scenario": "Cond(int-valued branch, float-valued branch).simulate, float branch taken", "observed": float(tr.get_retval()), "required": float(y)}
+            if not close(r, 2.6):
+                return {"confirmed": True, "scenario": "Cond(int-valued branch, float-valued branch).assess({'y': 2.6}), float branch taken", "observed": float(r), "required": 2.6}
+        except Exception as e:
+            return {"confirmed": True, "scenario": "Cond with branches of different return dtypes", "observed": "raised %s: %s" % (type(e).__name__, str(e)[:200]), "required": "defined"}
+    return {"confirmed": False}
+
 def sc_scan_regenerate():
     @gen
     def step(c, x):
